@@ -5,6 +5,8 @@ go 1.22
 require (
 	github.com/caddyserver/caddy/v2 v2.8.4
 	github.com/gr33nbl00d/caddy-revocation-validator v0.0.0
+	github.com/syndtr/goleveldb v1.0.0
+	go.uber.org/zap v1.27.0
 	golang.org/x/crypto v0.23.0
 )
 
@@ -79,7 +81,6 @@ require (
 	github.com/spf13/cast v1.5.0 // indirect
 	github.com/spf13/cobra v1.8.0 // indirect
 	github.com/spf13/pflag v1.0.5 // indirect
-	github.com/syndtr/goleveldb v1.0.0 // indirect
 	github.com/tailscale/tscert v0.0.0-20240517230440-bbccfbf48933 // indirect
 	github.com/urfave/cli v1.22.14 // indirect
 	github.com/zeebo/blake3 v0.2.3 // indirect
@@ -89,7 +90,6 @@ require (
 	go.step.sm/linkedca v0.20.1 // indirect
 	go.uber.org/automaxprocs v1.5.3 // indirect
 	go.uber.org/multierr v1.11.0 // indirect
-	go.uber.org/zap v1.27.0 // indirect
 	go.uber.org/zap/exp v0.2.0 // indirect
 	golang.org/x/crypto/x509roots/fallback v0.0.0-20240507223354-67b13616a595 // indirect
 	golang.org/x/exp v0.0.0-20240506185415-9bf2ced13842 // indirect
